@@ -1,5 +1,5 @@
-(* Lbfd — BFD control packet codec (layers/bfd.go): contributions to C19, C05, C06 (partial), C07, C01. *)
-From GP Require Import Base Codec MiscLib LbfdModel LbfdProofs.
+(* Lbfd — BFD control packet codec (layers/bfd.go): contributions to C19, C05, C06, C07, C01. *)
+From GP Require Import Base Codec MiscLib LbfdModel LbfdProofs LbfdRt.
 Open Scope Z_scope.
 
 (* for both variants of the decoder (with and without the AuthHeader reset) *)
@@ -42,23 +42,16 @@ Print Assumptions C07_bfd_junk_free.
 Theorem C01_bfd_render_total : forall orig old data, bfd_render_panics (fst (fst (bfd_decode_gen orig old data))) = false.
 Proof. reflexivity. Qed.
 
-(* C06: stated, not proved (partial): the round trip is covered by the correspondence runs and the
-   C06 oracle only.  Hypothesis: field ranges, an authentication header exactly of a known type with
-   the A bit, packet below 256 octets, nothing under the layer. *)
-Definition bfd_wf (l : bfd) : Prop :=
-  0 <= b_version l < 8 /\ 0 <= b_diag l < 32 /\ 0 <= b_state l < 4 /\ 0 <= b_mult l < 256 /\
-  0 <= b_mydisc l < 4294967296 /\ 0 <= b_yourdisc l < 4294967296 /\ 0 <= b_mintx l < 4294967296 /\
-  0 <= b_minrx l < 4294967296 /\ 0 <= b_minecho l < 4294967296 /\
-  match b_auth l with
-  | None => True
-  | Some a => b_authp l = true /\ (ba_type a = 1 \/ ba_keyed (ba_type a) = true) /\ 0 <= ba_keyid a < 256 /\
-              0 <= ba_seq a < 4294967296 /\ (ba_type a = 1 -> ba_seq a = 0) /\ 24 + ba_len a < 256
-  end.
-Definition C06_bfd_roundtrip_statement : Prop := forall l fixl csum junk bytes l' old,
+(* C06: field ranges, an authentication header exactly of a known type with the A bit (sequence number 0
+   for the password type), packet below 256 octets, nothing under the layer: decoding the written bytes
+   into any object gives the same layer back (Contents = the bytes), no error, no truncation. *)
+Theorem C06_bfd_roundtrip : forall l fixl csum junk bytes l' old,
   bfd_wf l -> bfd_serialize l [] fixl csum junk = (Ok bytes, l') ->
   l' = l /\ bfd_decode_into old bytes =
     (mkBfd bytes [] (b_version l) (b_diag l) (b_state l) (b_poll l) (b_final l) (b_cpi l) (b_authp l) (b_demand l) (b_mpoint l)
            (b_mult l) (b_mydisc l) (b_yourdisc l) (b_mintx l) (b_minrx l) (b_minecho l) (b_auth l), Ok tt, false).
+Proof. exact bfd_roundtrip. Qed.
+Print Assumptions C06_bfd_roundtrip.
 
 Example Lbfd_nonvacuous :
   let l := mkBfd [] [] 1 0 3 false false false true false false 3 1 2 1000000 1000000 0 (Some (mkBa 1 9 0 [112;119])) in
